@@ -138,7 +138,8 @@ def client_suites(tier, chk, extra=()):
         _cache[tier] = ([make_case(s, "script-r%s" % s["retries"]) for s in script_specs(tier)],
                         [make_case(s, "special") for s in special_specs(tier)]
                         + [make_case(s, "peer-close") for s in peer_close_specs()]
-                        + [make_case(s, "malformed-pdu") for s in malformed_pdu_specs()])
+                        + [make_case(s, "malformed-pdu") for s in malformed_pdu_specs()]
+                        + [make_case(s, "sizes") for s in size_specs()])
     a, b = _cache[tier]
     b = b + [make_case(s, "special") for s in extra]
     return [Suite("scripts", IMPORTS, "%s code" % chk, a, shard=120),
@@ -341,6 +342,9 @@ def region_of(pid, spec, i):
                 return "F-C13-udp-retry-reads-datagram-in-two-parts"
             if res == ["none"] and prev is not None and prev["result"] == ["err", None] and prev["delivered"]:
                 return "F-C13-none-after-partial-delivery"
+            if fr == "FBin" and res[0] == "err" and any(
+                    b in (0x7b, 0x7d) for b in bytes.fromhex(t["full_frame"])[1:-1]):
+                return "F-C13-binary-delimiter-bytes"
         else:
             if res[0] == "reply" and not paired(kind, t, res):
                 if "stale" in reached(tx, t):
@@ -414,6 +418,24 @@ def malformed_pdu_specs():
                 specs.append(dict(kind=kind, retries=retries, roe=flags[0], roi=flags[1], tid0=TIDS[i % len(TIDS)],
                                   txs=[dict(req=req, unit=UNITS[i % 4], script=[(b, {})] + tail),
                                        dict(req=reqs[(j + 7) % len(reqs)], unit=UNITS[i % 4], script=[])]))
+    return specs
+
+
+def size_specs():
+    """conformant replies whose length depends on the request's counts: FC 23 with read count {1,4,125} x registers
+    written {1,2,121}, reads / writes at the protocol limits, on EVERY client kind: the normal reply built by the real
+    server side (request.execute on a data store + buildPacket), the exception reply, then the healthy follow-up"""
+    specs = []
+    names = [n for n, _ in L.size_request_table()]
+    i = 0
+    for kind in L.KINDS:
+        for n in names:
+            i += 1
+            flags = FLAGS[i % 4]
+            specs.append(dict(kind=kind, retries=(0, 1, None)[i % 3], roe=flags[0], roi=flags[1], tid0=TIDS[i % len(TIDS)],
+                              txs=[dict(req=n, unit=UNITS[i % 4], script=[("full", {})]),
+                                   dict(req=n, unit=UNITS[i % 4], script=[("exc", {})]),
+                                   dict(req=names[(i * 5 + 2) % len(names)], unit=UNITS[i % 4], script=[])]))
     return specs
 
 
